@@ -19,6 +19,8 @@ THEOREMS = [
     "flOK_id", "slotStart_mono", "slotEnd_le_next_start", "mutual_exclusion_fl", "at_most_one_authorised",
     "unknown_runner_never", "single_runner_always", "halfSlotOK_id", "mutual_exclusion", "margin_separation",
     "every_runner_has_window", "fmod_shift", "authorised_in_every_cycle", "halfSlot_le_next_of_relErr",
+    # Props/C12Gen.lean: Gen/Slot.lean (the arithmetic re-expressed from the Python AST by translate/slot.py) IS the model
+    "gen_slot_is_the_model", "translated_source_excludes",
 ]
 
 
@@ -302,7 +304,9 @@ def system_level(ctx: Ctx) -> None:
 def run(ctx: Ctx) -> None:
     from pynenc.orchestrator import atomic_service as A
 
-    lean_stage(ctx, None, THEOREMS)
+    from harness.translate import slot as trslot
+
+    lean_stage(ctx, trslot.gen, THEOREMS)
     drv = LeanDriver()
     ctx.cov["rule"] = ("configurations (n, interval, margin) from a grid + seeded random; instants = dense grid + every slot "
                        "boundary ±1,2 ulp over several cycles and epoch offsets to 2e9 s; distinct+non-trivial = distinct "
